@@ -149,6 +149,7 @@ type c03World struct {
 	dir      string
 	id       string
 	limit    int64
+	total    int64    // TotalLimit (0: no retention)
 	recs     [][]byte // live records in append order
 	nSynced  int      // records covered by an explicit Sync/Shift/Close: must never be lost
 	sessBase int      // recs[sessBase:] were appended after the last sync of this session
@@ -201,7 +202,7 @@ func (w *c03World) tail() (c03Seg, int) {
 func (w *c03World) open() string {
 	ww, err := consensus.OpenWALForWrite(w.id, &consensus.WALConfig{
 		FileLimit:            w.limit,
-		TotalLimit:           1 << 50,
+		TotalLimit:           c03Total(w.total),
 		HousekeepingInterval: 10000 * time.Hour,
 		SyncInterval:         10000 * time.Hour,
 	})
@@ -213,6 +214,13 @@ func (w *c03World) open() string {
 	t, _ := w.tail()
 	w.floor = t.size
 	return ""
+}
+
+func c03Total(t int64) int64 {
+	if t <= 0 {
+		return 1 << 50
+	}
+	return t
 }
 
 func (w *c03World) markSynced() {
@@ -641,6 +649,13 @@ func TestC03(t *testing.T) {
 		gen(nil)
 		rec.Extra("smallscope_histories", n)
 	})
+	t.Run("retention", func(t *testing.T) {
+		q, th := 300, 4000
+		if !c03OnTmpfs {
+			q, th = 40, 600
+		}
+		ev.Check(t, q, th, func(rt *rapid.T) { c03Retention(rt, rec) })
+	})
 	t.Run("histories", func(t *testing.T) {
 		q, th := 300, 4000
 		if !c03OnTmpfs {
@@ -655,4 +670,101 @@ func TestC03(t *testing.T) {
 			}
 		})
 	})
+}
+
+// c03Retention: rotation and retention without any crash. Small FileLimit and TotalLimit, records of
+// 0..9000 bytes (larger than the writer's 4096-byte buffer, so parts of a frame reach the file before
+// the rest), housekeeping passes between appends and syncs, a clean Close at the end. Old segments may
+// be removed by design, so the reference is weaker than in the crash histories: what recovery returns is
+// a contiguous run of the appended records that ends with the LAST appended record (everything was
+// closed cleanly), every record byte-for-byte, and the read ends with a clean end of log (nothing was
+// torn, so nothing may look torn). After that, appended+synced records are returned by the next read.
+func c03Retention(rt *rapid.T, rec *ev.Rec) {
+	dir, err := os.MkdirTemp(c03Root, "c03r")
+	if err != nil {
+		ev.Inconclusive("C03 mkdtemp %v", err)
+	}
+	defer os.RemoveAll(dir)
+	limit := int64(rapid.SampledFrom([]int{64, 300, 4000, 5000, 9000}).Draw(rt, "fileLimit"))
+	total := limit * int64(rapid.IntRange(1, 4).Draw(rt, "totalInFiles"))
+	w := &c03World{dir: dir, id: dir + "/wal", limit: limit, total: total}
+	if m := w.open(); m != "" {
+		rt.Fatalf("C03 violated: %s", m)
+	}
+	var hist []string
+	nops := rapid.IntRange(3, 40).Draw(rt, "nops")
+	rotations, big := 0, false
+	for i := 0; i < nops; i++ {
+		switch k := rapid.IntRange(0, 9).Draw(rt, "op"); {
+		case k < 6:
+			n := rapid.SampledFrom([]int{0, 1, 7, 90, 98, 1000, 4087, 4088, 4089, 5000, 9000}).Draw(rt, "len")
+			if n > 4088 {
+				big = true
+			}
+			hist = append(hist, fmt.Sprintf("a%d", n))
+			if m := w.apply([]c03Op{{'a', n}}); m != "" {
+				rt.Fatalf("C03 violated: %s (history %v)", m, hist)
+			}
+		case k < 8:
+			before := len(c03Segs(dir))
+			hist = append(hist, "h")
+			if m := w.apply([]c03Op{{kind: 'h'}}); m != "" {
+				rt.Fatalf("C03 violated: %s (history %v)", m, hist)
+			}
+			if w.hkRotated || len(c03Segs(dir)) != before {
+				rotations++
+			}
+		default:
+			hist = append(hist, "s")
+			if m := w.apply([]c03Op{{kind: 's'}}); m != "" {
+				rt.Fatalf("C03 violated: %s (history %v)", m, hist)
+			}
+		}
+	}
+	if err := w.w.Close(); err != nil {
+		rt.Fatalf("C03 violated: Close failed: %v (history %v)", err, hist)
+	}
+	w.w = nil
+	desc := fmt.Sprintf("retention fileLimit=%d totalLimit=%d history=%s", limit, total, strings.Join(hist, " "))
+	check := func(phase string) {
+		got, repaired, err := c03Recover(w.id)
+		if err != nil {
+			rt.Fatalf("C03 violated: %s: recovery failed: %v; %s; segments=%v", phase, err, desc, c03Segs(dir))
+		}
+		if repaired {
+			rt.Fatalf("C03 violated: %s: a log that was closed cleanly reads as torn or corrupted after %d records (of %d appended); %s; segments=%v", phase, len(got), len(w.recs), desc, c03Segs(dir))
+		}
+		// (retention may legitimately leave nothing: a rotation followed by the removal of every older segment)
+		off := len(w.recs) - len(got)
+		if off < 0 {
+			rt.Fatalf("C03 violated: %s: %d records returned, only %d appended; %s", phase, len(got), len(w.recs), desc)
+		}
+		for i, r := range got {
+			if !bytes.Equal(r, w.recs[off+i]) {
+				rt.Fatalf("C03 violated: %s: returned record #%d (len=%d %x) is not appended record #%d (len=%d %x): the returned records are not the most recent contiguous run; %s; segments=%v",
+					phase, i, len(r), c03Head(r), off+i, len(w.recs[off+i]), c03Head(w.recs[off+i]), desc, c03Segs(dir))
+			}
+		}
+	}
+	check("after clean close")
+	// append after recovery, sync, read again
+	if m := w.open(); m != "" {
+		rt.Fatalf("C03 violated: %s", m)
+	}
+	if m := w.apply([]c03Op{{'a', 5}, {'a', 4500}, {kind: 's'}}); m != "" {
+		rt.Fatalf("C03 violated: %s (%s)", m, desc)
+	}
+	if err := w.w.Close(); err != nil {
+		rt.Fatalf("C03 violated: Close failed: %v", err)
+	}
+	w.w = nil
+	check("after re-open, append, sync, close")
+	labels := []string{"retention"}
+	if rotations > 0 {
+		labels = append(labels, "retention:rotated")
+	}
+	if big {
+		labels = append(labels, "retention:recordLargerThanWriteBuffer")
+	}
+	rec.Case(desc, rotations > 0 && big, labels...)
 }
